@@ -44,9 +44,9 @@ var Absent = absent{}
 
 // DomainFor derives the sliced domain of an enumerated query text (the feature grammar only uses the kinds
 // NodeKind1/2, EdgeKind1/2 and the keys name, v, list, b).
-func DomainFor(text string, maxNodes, maxEdges int, budget int) Domain {
+func DomainFor(text string, maxNodes, maxEdges int, budget int, tame bool) Domain {
 	has := func(s string) bool { return strings.Contains(text, s) }
-	d := Domain{MaxNodes: maxNodes, MaxEdges: maxEdges}
+	d := Domain{MaxNodes: maxNodes, MaxEdges: maxEdges, Tame: tame}
 	k1, k2 := has("NodeKind1"), has("NodeKind2")
 	observesLabels := has("labels(")
 	switch {
@@ -63,7 +63,11 @@ func DomainFor(text string, maxNodes, maxEdges int, budget int) Domain {
 		d.NodeProps = append(d.NodeProps, PropDomain{"name", []any{Absent, "a", "b"}})
 	}
 	if has(".v") || has("v:") {
-		d.NodeProps = append(d.NodeProps, PropDomain{"v", []any{Absent, int64(1), int64(2), "1"}})
+		if tame {
+			d.NodeProps = append(d.NodeProps, PropDomain{"v", []any{Absent, int64(1), int64(2)}})
+		} else {
+			d.NodeProps = append(d.NodeProps, PropDomain{"v", []any{Absent, int64(1), int64(2), "1"}})
+		}
 	}
 	if has("list") {
 		d.NodeProps = append(d.NodeProps, PropDomain{"list", []any{Absent, []any{"a"}, []any{"b", "a"}, []any{}}})
